@@ -87,6 +87,8 @@ def gen_coord(t, lo, hi, d):
         return t.pick([lo - 1, lo - d - 3, hi + 1, hi + 2 * d + 1, lo - 0.5, hi + 0.25], "coord.out")
     if k == 4:
         return t.rint(lo, hi, "coord.int") + t.pick([0, 0.5, 0.25, -0.25], "coord.frac")
+    if k == 5:  # a hair below or above a grid line
+        return (t.rint(lo // d - 1, hi // d + 1, "coord.grid2")) * d + t.pick([-2.0 ** -20, 2.0 ** -20, -2.0 ** -10], "coord.eps")
     return t.rint(lo, hi, "coord.int")
 
 
